@@ -153,7 +153,7 @@ namespace xsv
                     {
                         ld t1 = fabsl(lgammal(ax)), t2 = fabsl(logl(3.14159265358979323846264338327950288L / (ax * s)));
                         ld K = (t1 + t2) / (fabsl(exact) < 1 ? 1.0L : fabsl(exact));
-                        if (K > 6 && std::isfinite(got) && err <= 2 + 1.5 * (double)K)
+                        if (K > 4.5 && std::isfinite(got) && err <= 2 + 1.5 * (double)K)
                             return "lgamma32_reflection_cancellation";
                     }
                 }
